@@ -36,6 +36,10 @@ if [ $? -ne 0 ]; then
   # the harness does not build against this tree: the repository (or a hook) changed an interface the monitors rely on
   echo "INCONCLUSIVE property=$ID: harness does not build against $VERIF_REPO"; head -30 "$S/build.log"; exit 2
 fi
+if [ "$ID" = C13 ] && [ "$TIER" = thorough ]; then
+  # race-detector leg: the lexer goroutine and the parser share the lexer struct
+  ( cd "$HERE/harness" && go build -modfile="$S/go.mod" -tags verif -race -o "$S/vcheck-race" ./cmd/vcheck ) >> "$S/build.log" 2>&1 && export VERIF_RACE_BIN="$S/vcheck-race"
+fi
 ( cd "$VERIF_REPO" && go build "${COVER[@]}" -o "$S/yaccgo" ./yaccgo ) > "$S/build2.log" 2>&1 || { echo "INCONCLUSIVE property=$ID: yaccgo CLI does not build"; head -30 "$S/build2.log"; exit 2; }
 export VERIF_YACCGO="$S/yaccgo"
 if [ $MODE = replay ]; then
